@@ -148,7 +148,8 @@ def rule_r2(ctx, rid="C12.R2"):
     for (f, g, n, c, loop) in _wait_loops(ctx):
         if loop is None:
             continue
-        lt = g.expand(loop.test, n)
+        from ..inline import _nnf
+        lt = _nnf(g.expand(loop.test, n), False)  # negations pushed to the leaves: `not (not c or not t > m)` is `c and t > m`
         conj = lt.values if isinstance(lt, ast.BoolOp) and isinstance(lt.op, ast.And) else [lt]
         ps = [t for t in conj if any(_is_total(x) for x in ast.walk(t))]
         if not ps:
